@@ -5,6 +5,7 @@ From Coq Require Import List NArith ZArith Bool Lia.
 From Coq.Strings Require Import Byte.
 Require Import GV.Base.Res GV.Base.Byt GV.Base.Ints GV.Spec.LineSpec GV.Model.LineRd GV.Model.LineWr
                GV.Model.ConvertLine GV.Proofs.ConvertLineProofs.
+Require GV.Proofs.LineWrSeqProofs.
 Import ListNotations.
 Local Open Scope N_scope.
 
@@ -153,6 +154,98 @@ Proof.
   constructor; [destruct ev; exact E || exact I|exact IH].
 Qed.
 
+(* ---- alignment: every offset handed to the writer is a multiple of minimum_instruction_length *)
+Definition aligned (mil ao : N) : Prop := mil <= 1 \/ ao mod mil = 0.
+Definition EVA (mil : N) (o : res (option clrow)) : Prop :=
+  match o with
+  | Ok (Some (CRRow w)) => aligned mil (w_address_offset w)
+  | Ok (Some (CREndSequence n)) => aligned mil n
+  | _ => True
+  end.
+Definition MIL (mil : N) (c : cl) : Prop := le_min_len (p_lenc (cl_prog c)) = mil.
+
+Lemma ret_row_AL mil c : MIL mil c -> MIL mil (snd (ret_row h c)) /\ EVA mil (fst (ret_row h c)).
+Proof.
+  intros M. unfold ret_row. pose proof (convert_row_exact h c) as X.
+  destruct (convert_row h c) as [w|e| |]; cbn; split; try exact M; try exact I.
+  destruct X as (_ & _ & _ & X). unfold aligned. rewrite <- M. exact X.
+Qed.
+
+Lemma read_loop_AL mil : forall f c tomb, MIL mil c ->
+  MIL mil (snd (read_loop f dbg be sx h c tomb)) /\ EVA mil (fst (read_loop f dbg be sx h c tomb)).
+Proof.
+  induction f as [|f IH]; intros c tomb M; [split; [exact M|exact I]|].
+  cbn [read_loop]. destruct (cl_inp c) as [|b input]; [split; [exact M|exact I]|].
+  destruct (parse_insn dbg be h (b :: input)) as [[i rest]|e| |]; try (split; [exact M|exact I]).
+  set (c1 := with_inp rest c).
+  assert (D : forall i0,
+    let o := (match execute dbg h (cl_row c1) i0 with
+    | Err e => (Err e, c1) | Panic => (Panic, c1) | OutOfFuel => (OutOfFuel, c1)
+    | Ok (r', XErr e) => (Err e, with_row r' c1)
+    | Ok (r', XNoRow) => read_loop f dbg be sx h (with_row r' c1) tomb
+    | Ok (r', XRow) =>
+        let c := with_row r' c1 in
+        if tomb then
+          let c1 := if r_end r' then with_addr None c else c in
+          read_loop f dbg be sx h (with_row (row_reset h r') c1) (if r_end r' then false else tomb)
+        else if r_end r' then
+          match convert_address_offset c with
+          | Ok ao => (Ok (Some (CREndSequence ao)), c) | Err e => (Err e, c)
+          | Panic => (Panic, c) | OutOfFuel => (OutOfFuel, c)
+          end
+        else
+          match cl_addr c with
+          | Some a => (Ok (Some (CRSetAddress a)), with_st CSConvertRow (with_addr None c))
+          | None => ret_row h (with_st CSReadRow c)
+          end
+    end : rr_out) in MIL mil (snd o) /\ EVA mil (fst o)).
+  { intros i0. cbv zeta.
+    destruct (execute dbg h (cl_row c1) i0) as [[r' x]|e| |]; try (split; [exact M|exact I]).
+    destruct x as [| |e]; [| |split; [exact M|exact I]].
+    - destruct tomb.
+      + destruct (r_end r'); apply IH; exact M.
+      + destruct (r_end r').
+        * pose proof (address_offset_exact (with_row r' c1)) as AO.
+          destruct (convert_address_offset (with_row r' c1)); split; try exact M; try exact I.
+          destruct AO as [_ AO]. unfold EVA, aligned. cbn [fst]. rewrite <- M. exact AO.
+        * destruct (cl_addr (with_row r' c1)); [split; [exact M|exact I]|].
+          apply ret_row_AL. exact M.
+    - apply IH. exact M. }
+  destruct i; try (match goal with |- context [execute dbg h _ ?i0] => exact (D i0) end).
+  - destruct (execute dbg h (cl_row c1) (LineSpec.ISetAddress 0)) as [[r' x]|e| |]; try (split; [exact M|exact I]).
+    destruct x as [| |e]; try (split; [exact M|exact I]);
+      (destruct (ones_sized dbg (h_addr_size h)) as [ta|e1| |]; try (split; [exact M|exact I]); cbv zeta;
+       match goal with |- context [N.eqb ?x ta] => destruct (N.eqb x ta) end; apply IH; exact M).
+  - destruct (convert_file sx (p_enc (cl_prog c1)) (cl_dirs c1) (cl_ls c1) f0) as [[[[name d] info] ls']|e| |];
+      try (split; [exact M|exact I]).
+    destruct (LineWr.add_file (cl_prog c1) name d info) as [[p' id]|e| |] eqn:EA; try (split; [exact M|exact I]).
+    destruct (LineWrSeqProofs.add_file_same_rows _ _ _ _ _ _ EA) as (_ & _ & _ & _ & _ & E2).
+    apply IH. unfold MIL in *. cbn. rewrite E2. exact M.
+Qed.
+
+Lemma read_row_AL mil c : MIL mil c ->
+  MIL mil (snd (read_row dbg be sx h c)) /\ EVA mil (fst (read_row dbg be sx h c)).
+Proof.
+  intros M. unfold read_row. destruct (cl_st c).
+  - apply read_loop_AL. exact M.
+  - destruct (cl_addr c); [split; [exact M|exact I]|]. apply ret_row_AL. exact M.
+  - apply ret_row_AL. exact M.
+Qed.
+
+Definition ev_aligned (mil : N) (ev : clrow) : Prop :=
+  match ev with
+  | CRRow w => aligned mil (w_address_offset w) | CREndSequence n => aligned mil n | _ => True
+  end.
+
+Lemma events_loop_AL mil : forall f c, MIL mil c -> Forall (ev_aligned mil) (fst (fst (events_loop f dbg be sx h c))).
+Proof.
+  induction f as [|f IH]; intros c M; [constructor|].
+  cbn [events_loop]. destruct (read_row_AL mil c M) as [M' E].
+  destruct (read_row dbg be sx h c) as [[[ev|]|e| |] c']; cbn [fst snd] in *; try constructor.
+  specialize (IH c' M'). destruct (events_loop f dbg be sx h c') as [[evs s] cf]. cbn [fst] in *.
+  constructor; [destruct ev; exact E || exact I|exact IH].
+Qed.
+
 End Inv.
 
 (* every Row event of the read_row iteration started from ConvertLineProgram::new's state *)
@@ -160,3 +253,9 @@ Lemma events_rows_bounded dbg be sx h c :
   cl_row c = row_new h ->
   Forall (ev_ok h) (fst (fst (events dbg be sx h c))).
 Proof. intros E. unfold events. apply events_loop_RP. rewrite E. apply RP_new. Qed.
+
+(* every offset of the iteration is a multiple of the converted program's minimum_instruction_length *)
+Lemma events_offsets_aligned dbg be sx h c :
+  Forall (ev_aligned (le_min_len (p_lenc (cl_prog c)))) (fst (fst (events dbg be sx h c))).
+Proof. unfold events. apply events_loop_AL. reflexivity. Qed.
+
